@@ -329,7 +329,7 @@ def add_faults(casefn, kinds, frac=0.6, cont=0.0):
                     c["cont"] = 1
                 # the FIRST answer defines the layout (any subset and permutation of the output-capable signals):
                 # at call 0 only faults that keep it such a layout are meaningful as "the first answer"
-                c["faults"] = [((1 if (k == 0 and what.split()[0] in ("add", "dup", "subst", "widen")) else k), what) for k, what in c["faults"]]
+                c["faults"] = [((1 if (k == 0 and what.split()[0] in ("add", "dup", "subst", "widen", "addw")) else k), what) for k, what in c["faults"]]
         return cases
     return f
 
@@ -975,7 +975,7 @@ PROPS["C13"] = {
         {"pC": 0.1, "maxdepth": 3, "reads": 0.2, "echo": 1.0},
         {"pC": 0.1, "maxdepth": 2, "reads": 0.2, "n_bidir": 1, "out_twin": 0.8, "full_layout": True},
         {"pC": 0.1, "maxdepth": 2, "reads": 0.0, "pZX": 0.5, "full_layout": True, "n_bidir": 1},
-    ]), ["err", "drop", "add", "dup", "swap", "subst", "widen"], 0.8, cont=0.4),
+    ]), ["err", "drop", "add", "dup", "swap", "subst", "widen", "addw"], 0.8, cont=0.4),
     "tags": ("NEW", "CALL", "ROW", "ITEM", "END"),
     "nontrivial": lambda c, t: any(x == "ITEM" for x, _ in t) or any(x == "NEW" and r.startswith("err") for x, r in t),
     "oracles": [attribution_oracle, protocol_oracle, no_panic_oracle],
@@ -1221,8 +1221,16 @@ def breaking_edits(rng, src):
             out.append((join(body[:i] + [row2] + body[i + 1:]), "row of one bits() group wider than the header"))
     hdr = lines[hdr_i].split()
     if hdr:
+        nh = len(hdr)
+        for short in (nh - 1, nh + 1, 0):
+            if short >= 0:
+                out.append((src.rstrip("\r\n") + "\nrepeat(2) " + " ".join(["1"] * short) + rng.choice(["\n", "", "\n\n"]), "repeat row with %d entries under %d columns" % (short, nh)))
+        out.append((src.rstrip("\r\n") + "\n" + " ".join([rng.choice(["0x10000000000000000", "0b1" + "0" * 64, "0x" + "F" * 17, "18446744073709551616"])] + ["1"] * (nh - 1)) + "\n", "over-long literal as a bare row entry"))
+        out.append((src.rstrip("\r\n") + "\n" + " ".join([rng.choice(["0x10000000000000000", "0b1" + "0" * 64])] + ["1"] * max(nh - 2, 0)) + "\n", "over-long literal as a bare row entry in a row that is one entry short"))
         out.append(("\n".join(lines[:hdr_i] + [lines[hdr_i].rstrip("\r") + " " + hdr[0]] + lines[hdr_i + 1:]), "duplicated header name"))
         out.append(("\n".join(lines[:hdr_i] + [lines[hdr_i].rstrip("\r\n")]), "header not followed by a line break"))
+    # every edit so far also without the final line break (the two ways a block can end)
+    out += [(t.rstrip("\r\n"), what + " (no final newline)") for t, what in out if t.endswith("\n") and "cut off" not in what and rng.random() < 0.35]
     out.append((src.rstrip("\r\n") + "\ndeclare VV = 1;\ndeclare VV = 2;\n", "duplicated declare name"))
     # the same name declared inside a loop body and again outside it / in a sibling loop (declarations are global)
     out.append((src.rstrip("\r\n") + "\nloop(dd,1)\ndeclare WW = 1;\nend loop\ndeclare WW = 2;\n", "duplicated declare name (first one inside a loop)"))
@@ -1412,6 +1420,10 @@ def radix_cases(seed, tier):
         for j, sp in enumerate(spell):
             cases.append({"id": "radix-%d-%d" % (i, j), "kind": "run", "src": "A Q\n%s (%s)\n" % (sp, sp), "sigs": sigs, "layout": [1], "table": [["0"]],
                           "echo": 0, "wdefault": 0, "faults": [], "max": 10, "seed": 1, "radix_group": i, "radix_value": v})
+    for i, sp in enumerate(["(-9223372036854775808)", "(- 9223372036854775808)", "(-0x8000000000000000)", "(- 0x8000000000000000)", "(-\t9223372036854775808)",
+                            "(-9223372036854775807)", "(- 9223372036854775807)", "(0-9223372036854775807-1)"]):
+        cases.append({"id": "radix-min-%d" % i, "kind": "run", "src": "A Q\n%s (%s)\n" % (sp, sp), "sigs": sigs, "layout": [1], "table": [["0"]],
+                      "echo": 0, "wdefault": 0, "faults": [], "max": 10, "seed": 1})
     # the same digit string in several radixes within ONE program (each literal keeps the value of its own radix), with
     # leading zeros, compared with the model
     for i, digits in enumerate(["10", "11", "100", "101", "7", "17", "0", "1", "0010", "777"]):
@@ -1893,7 +1905,8 @@ def c05_exhaustive(seed, tier):
                 if tier == "quick" and (n + seed) % 9 != 0:
                     continue
                 out_idx = [i for i, s_ in enumerate(sigs) if s_["typ"] in ("O", "B")]
-                src = " ".join(hdr) + "\n" + " ".join("1" if e in ("X", "C") else e for e in row) + "\n" + " ".join(row) + "\n"
+                zero = " ".join(["0"] * len(row))
+                src = " ".join(hdr) + "\n" + (zero + "\n" if n % 2 else "") + " ".join("1" if e in ("X", "C") else e for e in row) + "\n" + " ".join(row) + "\n" + (zero + "\n" if n % 3 == 0 else "")
                 cases.append({"id": "c05-ex-%d" % n, "kind": "run", "src": src, "sigs": [dict(s_) for s_ in sigs], "layout": out_idx,
                               "table": [["1"] * len(out_idx), ["0"] * len(out_idx)], "echo": 0, "wdefault": n % 2, "faults": [], "max": 400, "seed": 1})
     return cases
@@ -2123,6 +2136,19 @@ def more_name_cases(prefix):
         ([_sig("A", "I"), _sig("Q_out", "O"), _sig("Q", "O")], "A Q_out", "1 2", [1, 2], [[]]),
         ([_sig("A", "I"), _sig("Q", "O")], "A Q_out", "1 2", [1], [[]]),
         ([_sig("A", "I"), _sig("V_out", "B"), _sig("Q", "O")], "A V_out V_out_out Q V\ndeclare V = Q;", "1 1 2 3 Z", [1, 2], [[]]),
+        # a bidirectional B next to an INPUT literally named B_out: the column B_out is an input column and B's expected column at once
+        ([_sig("CLK", "I", 1), _sig("B", "B"), _sig("B_out", "I"), _sig("Q", "O")], "CLK B B_out Q", "C 1 2 X", [1, 3], [[]]),
+        ([_sig("CLK", "I", 1), _sig("B", "B"), _sig("B_out", "I"), _sig("Q", "O")], "B_out CLK Q", "2 C X", [1, 3], [[]]),
+        # two C in one row, the second one in a column that is no input (must not bind)
+        ([_sig("CLK", "I", 1), _sig("CK2", "I", 1), _sig("Q", "O")], "CLK CK2 Q", "C C X", [2], [[]]),
+        ([_sig("CLK", "I", 1), _sig("Q", "O")], "CLK Q", "C C", [1], [[]]),
+        ([_sig("CLK", "I", 1), _sig("B", "B")], "CLK B B_out", "C 1 C", [1], [[]]),
+        ([_sig("CLK", "I", 1), _sig("Q", "O")], "CLK Q V\ndeclare V = Q;", "C X C", [1], [[]]),
+        # header names that spell an expression: (P-Q) is P minus Q, never the signal called P-Q
+        ([_sig("P", "O"), _sig("Q", "O"), _sig("P-Q", "O"), _sig("A", "I", 8)], "A P Q P-Q", "(P-Q) X X X", [0, 1, 2], [[]]),
+        ([_sig("P", "O"), _sig("Q", "O"), _sig("P-Q", "O"), _sig("A", "I", 8)], "A P Q P-Q", "(P - Q) X X X", [0, 1, 2], [[]]),
+        ([_sig("BUS-OUT", "O"), _sig("A", "I", 8)], "A BUS-OUT", "(BUS-OUT) X", [0], [[]]),
+        ([_sig("BUS-OUT", "O"), _sig("A", "I", 8)], "A BUS-OUT", "(BUS - OUT) X", [0], [[]]),
     ]
     for i, (sigs, hdr, row, lay, faultsets) in enumerate(specs):
         for j, faults in enumerate(faultsets):
@@ -2475,3 +2501,61 @@ def long_silent_loops(prefix):
 
 for _p in ("C10", "C01"):
     _extend(_p, (lambda pref: (lambda seed, tier: long_silent_loops(pref)))(_p.lower()), "plus loops / whiles with 3000-20000 passes that yield no row")
+
+
+# ------------------------------------------------------------------ round 6 items
+def c07_clock_and_described(seed, tier):
+    """(a) a column that holds a C in one row and out-of-range numbers in other rows (every entry is reduced on its own);
+    (b) a driver whose first answer describes the output with another width (the expected values are reduced with the
+    TEST's width)"""
+    cases = []
+    for w in (1, 2, 4, 8, 31, 32, 33, 63):
+        sigs = [_sig("CLK", "I", w), _sig("D", "I", w), _sig("Q", "O", w)]
+        rows = ["C 1 X", "(-1) (-1) (-1)", "0x1FF 0x1FF 0x1FF", "C (1<<%d) X" % min(w, 62), "(3<<%d) 7 (3<<%d)" % (max(w - 1, 0), max(w - 1, 0)), "C 0 X"]
+        loop = ["loop(i,5)", "(i) (i*3) (i*5)", "end loop"]
+        for k, faults in enumerate([[], [(0, "widen 0")], [(1, "widen 0")]]):
+            cases.append({"id": "c07-clk-%d-%d" % (w, k), "kind": "run", "src": "CLK D Q\n" + "\n".join(rows + loop) + "\n", "sigs": [dict(s_) for s_ in sigs],
+                          "layout": [2], "table": [["1"], ["0"]], "echo": 0, "wdefault": k % 2, "faults": faults, "cont": 1, "max": 100, "seed": 1})
+    return cases
+
+
+_extend("C07", c07_clock_and_described, "plus columns that hold a C in one row and out-of-range numbers in others; drivers that describe the output with another width")
+_extend("C09", lambda seed, tier: [dict(c, kind="parse") for c in wide_boundary_cases("c09")], "plus headers of 64-70 columns with C / X around column 64 (parse)")
+
+
+def c16_dupname_cases(seed, tier):
+    """.dig documents in which several tests have the SAME label (or none) and a later one of them is broken: load_test(i)
+    parses test i and its error carries the source of test i (it must be renderable), load_test_by_name gives the first"""
+    import gen_dig
+    rng = random.Random(seed ^ 0xD0B1)
+    out = []
+    n = 40 if tier == "quick" else 1500
+    tries = 0
+    while len(out) < n and tries < 20 * n:
+        tries += 1
+        r2 = random.Random(rng.randrange(1 << 30))
+        desc = gen_dig.gen_desc(r2, r2.choice([0.0, 0.2, 0.5]))
+        tests = [it for it in desc["items"] if it["k"] == "test"]
+        if len(tests) < 2:
+            continue
+        lab = r2.choice(["same", None, "", "t"])
+        for t in tests:
+            t["label"] = lab
+        broken = tests[r2.randrange(1, len(tests))]
+        src = (broken["source"] or "").rstrip("\r\n")
+        if not src.strip():
+            continue
+        broken["source"] = src + "\n" + r2.choice(["loop(i,2)", "let q = (1 +", "while(1)", "1 $ 1", "bits(70,1)"]) + r2.choice(["", "\n", "  \n ", "\n\n"])
+        root = gen_dig.desc_tree(r2, desc)
+        nodes = gen_dig.top_level(r2, root, 0.0)
+        st = gen_dig.style(r2, 0.0)
+        try:
+            c = gen_dig.make_case("c16-dup-%d-%d" % (seed & 0xFFFF, len(out)), r2, nodes, st, "desc", {"desc": desc, "features": ["dupname"]})
+        except AssertionError:
+            continue
+        out.append(c)
+    return out
+
+
+_extend("C16", c16_dupname_cases, "plus documents whose tests share one label (or have none) with a later one broken at its end")
+_extend("C09", lambda seed, tier: [dict(c, id="c09-" + c["id"]) for c in c16_dupname_cases(seed, tier)], "plus .dig documents with equally named tests, a later one broken")
